@@ -342,6 +342,16 @@ func (v *Verifier) verifyFunc(key string, splitName, splitCase string, splitCond
 		c.addObl(&Obligation{Name: c.key + "/vacuity", Kind: "vacuity", Descr: "precondition and path assumptions are satisfiable (planted false must fail)",
 			Hyps: nil, Goal: tNot(tOr(pcs...)), Expect: "notunsat", Timeout: 2, Only: []string{"z3-new"}})
 	}
+	if c.con != nil && c.con.Flags["no-merge"] {
+		// path-wise exploration produces one obligation per path for the same program point: number them
+		seen := map[string]int{}
+		for _, o := range c.obls {
+			seen[o.Name]++
+			if n := seen[o.Name]; n > 1 {
+				o.Name = fmt.Sprintf("%s~path%d", o.Name, n)
+			}
+		}
+	}
 	res.Obls = c.obls
 	res.Warns = c.warns
 	res.SpecErrs = c.specErrs
@@ -593,6 +603,12 @@ func (c *FnCtx) prelude() string {
 		if s == "Str" || strings.HasPrefix(s, "Seq_") {
 			for _, a := range seqAxioms(Sort(s)) {
 				fmt.Fprintf(&b, "(assert %s)\n", a)
+			}
+			if s != "Str" && c.con != nil && c.con.Flags["forward-seq"] {
+				// forward instantiation: a known index of a sequence is also looked at in its sub-sequences (in-place
+				// removal loops need the witnesses of the old sequence carried over to the new one)
+				n := sortName(Sort(s))
+				fmt.Fprintf(&b, "(assert (forall ((s %s) (a Int) (b Int) (k Int)) (! (=> (and (<= 0 a) (<= a k) (< k b) (<= b (len_%s s))) (= (at_%s (sub_%s s a b) (- k a)) (at_%s s k))) :pattern ((sub_%s s a b) (at_%s s k)))))\n", s, n, n, n, n, n, n)
 			}
 		}
 	}
